@@ -223,6 +223,8 @@ func panicKind(s string) string {
 		return "nil-dereference"
 	case strings.Contains(s, "makeslice") || strings.Contains(s, "len out of range"):
 		return "makeslice"
+	case strings.Contains(s, "negative shift"):
+		return "negative-shift"
 	}
 	return "other"
 }
@@ -300,7 +302,7 @@ func (u *unitCtx) eval(c *caseIn) {
 	u.wd.begin(func() {
 		sig := "C16:hang:honest-proof-of-A-for-claim-about-B:" + rel
 		if !c.honest {
-			sig = "C16:malformed:" + c.mutClass + ":hang:" + rel
+			sig = "C16:malformed:" + c.mutClass + ":hang"
 		} else if c.a == c.b {
 			sig = "C16:hang:honest-proof-own-key"
 		}
@@ -343,7 +345,7 @@ func (u *unitCtx) eval(c *caseIn) {
 		got = "panic: " + pan
 		sig := "C16:panic:honest-proof:" + panicKind(pan)
 		if !c.honest {
-			sig = "C16:malformed:" + c.mutClass + ":panic:" + panicKind(pan)
+			sig = "C16:malformed:" + c.mutClass + ":panic"
 		}
 		u.res.viol(sig, "VerifyProof panicked ("+pan+"): "+describe(), u.ref(c, no, got))
 	case ok && !truth:
@@ -353,7 +355,7 @@ func (u *unitCtx) eval(c *caseIn) {
 		}
 		sig := "C16:" + kind
 		if !c.honest {
-			sig = "C16:malformed:" + c.mutClass + ":" + kind
+			sig = "C16:malformed:" + c.mutClass + ":false-claim-accepted"
 		}
 		u.res.viol(sig, "false claim accepted: "+describe(), u.ref(c, no, got))
 	case !ok && truth && c.honest && c.a == c.b:
@@ -630,11 +632,17 @@ type pool struct {
 	hangs    map[string]int
 	stop     func() bool
 	stopped  bool
+	grace    time.Duration // after stop() turns true, running children get this long before they are killed
+	cut      chan struct{}
+	cutJobs  int
 	onResult func(j Job, r *Result)
 	onCrash  func(j Job, why string)
 }
 
-func execJob(j Job) (*Result, error) {
+var errCut = fmt.Errorf("cut by the deadline")
+
+// execJob runs one job in a fresh child. cut, when closed, kills the child (hard deadline).
+func execJob(j Job, cut <-chan struct{}) (*Result, error) {
 	exe, err := os.Executable()
 	if err != nil {
 		return nil, err
@@ -656,6 +664,10 @@ func execJob(j Job) (*Result, error) {
 	go func() { done <- cmd.Wait() }()
 	select {
 	case err = <-done:
+	case <-cut:
+		_ = cmd.Process.Kill()
+		<-done
+		return nil, errCut
 	case <-time.After(20 * time.Minute):
 		_ = cmd.Process.Kill()
 		<-done
@@ -676,6 +688,29 @@ func (p *pool) run(jobs []Job, par int) {
 	p.cond = sync.NewCond(&p.mu)
 	p.queue = append(p.queue, jobs...)
 	p.hangs = map[string]int{}
+	p.cut = make(chan struct{})
+	finished := make(chan struct{})
+	go func() {
+		for {
+			select {
+			case <-finished:
+				return
+			case <-time.After(200 * time.Millisecond):
+			}
+			if p.stop != nil && p.stop() {
+				p.mu.Lock()
+				p.stopped = true
+				p.mu.Unlock()
+				p.cond.Broadcast()
+				select {
+				case <-finished:
+				case <-time.After(p.grace):
+					close(p.cut)
+				}
+				return
+			}
+		}
+	}()
 	var wg sync.WaitGroup
 	for i := 0; i < par; i++ {
 		wg.Add(1)
@@ -708,10 +743,12 @@ func (p *pool) run(jobs []Job, par int) {
 				sort.Strings(j.SkipClasses)
 				p.running++
 				p.mu.Unlock()
-				r, err := execJob(j)
+				r, err := execJob(j, p.cut)
 				p.mu.Lock()
 				p.running--
-				if err != nil {
+				if err == errCut {
+					p.cutJobs++
+				} else if err != nil {
 					p.onCrash(j, err.Error())
 				} else {
 					p.onResult(j, r)
@@ -728,6 +765,7 @@ func (p *pool) run(jobs []Job, par int) {
 		}()
 	}
 	wg.Wait()
+	close(finished)
 }
 
 // ---------------------------------------------------------------------------------------
@@ -860,7 +898,7 @@ func main() {
 	per := map[string]*agg{}
 	var mu sync.Mutex
 	sampleKinds := map[string]bool{}
-	p := &pool{stop: r.Expired}
+	p := &pool{stop: r.Expired, grace: 8 * time.Second}
 	p.onResult = func(j Job, res *Result) {
 		mu.Lock()
 		defer mu.Unlock()
@@ -923,8 +961,9 @@ func main() {
 		r.Violation("C16:worker-crash", fmt.Sprintf("the child process evaluating job %+v died: %s", j, why), j)
 	}
 	p.run(jobs, runtime.NumCPU())
-	if p.stopped {
-		r.Note("soft deadline reached with %d jobs not started", len(p.queue))
+	if p.stopped && (len(p.queue) > 0 || p.cutJobs > 0) {
+		r.Exhaustive = false
+		r.Note("soft deadline reached: %d of %d jobs not started, %d running jobs cut after the grace period (their cases are not counted)", len(p.queue), len(jobs), p.cutJobs)
 	}
 
 	var calls, proofs, nontrivial, accepted, skipped int64
@@ -1028,7 +1067,7 @@ func doReplay(r *mc.Run) {
 	j := Job{World: ref.World, Cfg: ref.Cfg, Phase: ref.Phase, Lo: ref.Unit, Hi: ref.Unit + 1, Only: ref.Case, Histories: hist, AllBits: ref.All}
 	var calls int64
 	for i := 0; i < 5; i++ {
-		res, err := execJob(j)
+		res, err := execJob(j, nil)
 		if err != nil {
 			r.Violation("C16:worker-crash", fmt.Sprintf("replay %d: %v", i, err), j)
 			continue
